@@ -11,7 +11,7 @@ from vlib.core import Failure
 PROP = "C19"
 RULE = (
     "a case is (total, connect, read) from {unset, None, 0.5, 2, 10}^3 x placement {pool Timeout, request Timeout, "
-    "both (pool-level decoys), pool float, request float} x connect duration d from {0, .25, .5, 1, 2, 5, 20} on a "
+    "both (pool-level decoys), pool float, request float, request float over pool-level decoys} x connect duration d from {0, .25, .5, 1, 2, 5, 20} on a "
     "virtual clock x history {fresh connection, reused connection, second request on a new connection after a first "
     "one with its own d} x server {answers, stays silent} x scheme {http, https over the identity TLS layer}; the quick "
     "tier already enumerates this grid completely (distinct by construction). Plus the invalid-value table and the "
@@ -27,7 +27,7 @@ EXHAUSTIVE = {"quick": True, "thorough": True}
 
 VALS = ["unset", None, 0.5, 2, 10]
 DS = [0, 0.25, 0.5, 1, 2, 5, 20]
-PLACEMENTS = ["pool", "request", "both", "pool-float", "request-float"]
+PLACEMENTS = ["pool", "request", "both", "pool-float", "request-float", "both-float"]
 HISTORIES = ["fresh", "reused", "second-fresh"]
 DECOY = (0.123, 0.111, 0.117)
 INVALID = [0, -1, -0.0, True, False, "x", "1", [], {}, (), -3.5, 0.0, b"1"]
